@@ -230,6 +230,12 @@ func limitsBody(c *runner.Ctx) {
 				})
 			}
 		}
+		if err == nil && c.Choose(3, "explain-mode") == 1 {
+			// sqlgen's test mode: every SELECT is preceded by an EXPLAIN of itself.
+			// That is a statement sent to the database like any other.
+			c.Probe("handle-in-explain-mode")
+			h.db, err = h.db.WithPanicOnNoIndex()
+		}
 		if err != nil {
 			c.Violate("limit-setup-failed", "%v", err)
 			return
